@@ -1,5 +1,5 @@
 (* C16 - aarch64 pointer-authentication bits are stripped from everything reported. *)
-From FH Require Import Word A64 Unwinder A64Unw A64Exec A64UnwFacts.
+From FH Require Import Consts Word A64 Unwinder A64Unw A64Exec A64UnwFacts PacFacts.
 Open Scope N_scope.
 
 (* "all bits outside the mask are clear" *)
@@ -25,6 +25,33 @@ Theorem C16_unwind_frame_stripped : forall u c a rg m ra,
   mask (o_regs _ _ (unwind_frame_a u c a rg m)) = mask rg.
 Proof. exact unwind_frame_a_stripped. Qed.
 Print Assumptions C16_unwind_frame_stripped.
+
+(* a stack whose saved return address carries authentication bits unwinds like the unsigned stack:
+   [lr_slot ru first rg] is the one slot the rule takes the return address from; if m' is m except that
+   the word in that slot differs in bits outside the mask (signed_at), the step gives the same result
+   and the same registers - for every rule whose fp and lr slots are two different slots *)
+Theorem C16_signed_stack_step : forall ru first rg m m',
+  arule_wf ru = true -> asp rg < W64 -> afp rg < W64 -> slots_distinct ru ->
+  signed_at (mask rg) (lr_slot ru first rg) m m' ->
+  aexec ru first rg m' = aexec ru first rg m.
+Proof. exact aexec_signed. Qed.
+Print Assumptions C16_signed_stack_step.
+
+Example C16_signed_example :
+  let rg := aregs_new_with_mask mask_24_40 0x4000 0x1000 0x1020 in
+  let m := mem_of_list [(0x1020, 0x1040); (0x1028, 0x5000)] in
+  let m' := mem_of_list [(0x1020, 0x1040); (0x1028, 0xab00000000005000)] in
+  signed_at (mask rg) (lr_slot AUseFramePointer false rg) m m' /\
+  fst (aexec AUseFramePointer false rg m') = Ok (Some 0x5000).
+Proof.
+  cbv zeta. split; [split|].
+  - intros a Ha. cbn in Ha. unfold mem_of_list.
+    destruct (N.eqb 0x1020 a) eqn:E1; [reflexivity|].
+    destruct (N.eqb 0x1028 a) eqn:E2; [|reflexivity].
+    exfalso. apply Ha. f_equal. apply N.eqb_eq in E2. rewrite <- E2. reflexivity.
+  - intros a Ha. cbn in Ha. inversion Ha; subst. vm_compute. reflexivity.
+  - vm_compute. reflexivity.
+Qed.
 
 (* the register-set constructor strips too *)
 Theorem C16_new_with_mask_stripped : forall k l s f, stripped k (lr (aregs_new_with_mask k l s f)).
